@@ -7,10 +7,13 @@
    argument (recursive: everything at or below it) and changes nothing else (Memfs/LinkFacts.v, from C08's exactness theorem);
    and chmod of a single entry (no recursion, no follow) is exactly one application of the per-entry rule: the grammar's value
    v for the entry's kind is stored under the path (with the kind's type bits) when it differs from the current mode and is not 0
-   (KF-C11-octal-zero), nothing else changes, and a link is left alone. *)
+   (KF-C11-octal-zero), nothing else changes, and a link is left alone. Recursive chmod without follow is exact too
+   (Memfs/ChmodExact.v): when the grammar yields a non-zero value for every entry (no grammar error) the call succeeds and
+   every non-link entry at or below the argument carries exactly the grammar's value for its kind afterwards (its pre_op
+   grants and the deferred, contents-first item pass agree), links and everything else are untouched. *)
 From stdpp Require Import gmap.
 From Coq Require Import List NArith.
-From RV Require Import Base.Str Path.Helpers Path.Expand Chmod.Sym Chmod.SymFacts Memfs.State Memfs.Ops Memfs.Walk Memfs.WalkOps Memfs.ChmodFacts Memfs.Wf Memfs.LinkFacts.
+From RV Require Import Base.Str Path.Helpers Path.Expand Chmod.Sym Chmod.SymFacts Memfs.State Memfs.Ops Memfs.Walk Memfs.WalkOps Memfs.ChmodFacts Memfs.Wf Memfs.LinkFacts Memfs.ChmodExact.
 Local Open Scope N_scope.
 
 (* any number of well-formed clauses: every applicable clause is applied, in order *)
@@ -106,3 +109,13 @@ Theorem C11_chmod_single_value : forall env m s o p r v, WF m -> ch_follow o = f
         (forall q, q <> p -> m_ents m' !! q = m_ents m !! q) /\ m_data m' = m_data m /\ m_cwd m' = m_cwd m.
 Proof. exact chmod_single_value. Qed.
 Print Assumptions C11_chmod_single_value.
+
+(* chmod without follow, recursive or not: exactly the non-link entries at or below the argument get exactly the grammar's value *)
+Theorem C11_chmod_nofollow_exact : forall env m s o p r, WF m -> ch_follow o = false -> resolve env m s = inl p -> m_ents m !! p = Some r ->
+  (forall x, chmod_pre_check o x = None) -> (forall q x, m_ents m !! q = Some x -> exists v, valof o x = inl v /\ v <> 0%N) ->
+  exists m', chmod_op env m s o = Done (m', inl tt) /\
+    (forall q, m_ents m' !! q = if bool_decide (p `suffix_of` q /\ (ch_recursive o = true \/ q = p))
+                           then upd o <$> (m_ents m !! q) else m_ents m !! q) /\
+    m_data m' = m_data m /\ m_cwd m' = m_cwd m /\ m_root m' = m_root m.
+Proof. exact chmod_nofollow_exact. Qed.
+Print Assumptions C11_chmod_nofollow_exact.
